@@ -15,24 +15,29 @@ Import ListNotations.
    whatever the storage held — homogeneous and heterogeneous queues *)
 Theorem C10_queue_results_independent_of_prior_memory :
   forall a b a' b' n cs,
-    c_run_case GenCtor.eq_copy_inits_counters GenCtor.eq_move_inits_counters a b n cs
-    = c_run_case GenCtor.eq_copy_inits_counters GenCtor.eq_move_inits_counters a' b' n cs.
-Proof. exact junk_independent. Qed.
+    c_run_case GenCtor.eq_copy_inits_counters GenCtor.eq_copy_counters_from_source
+               GenCtor.eq_move_inits_counters GenCtor.eq_move_counters_from_source a b n cs
+    = c_run_case GenCtor.eq_copy_inits_counters GenCtor.eq_copy_counters_from_source
+                 GenCtor.eq_move_inits_counters GenCtor.eq_move_counters_from_source a' b' n cs.
+Proof. exact (junk_independent _ _). Qed.
 Print Assumptions C10_queue_results_independent_of_prior_memory.
 
 Theorem C10_heter_queue_results_independent_of_prior_memory :
   forall a b a' b' n cs,
-    c_run_case GenCtor.heq_copy_inits_counters GenCtor.heq_move_inits_counters a b n cs
-    = c_run_case GenCtor.heq_copy_inits_counters GenCtor.heq_move_inits_counters a' b' n cs.
-Proof. exact junk_independent. Qed.
+    c_run_case GenCtor.heq_copy_inits_counters GenCtor.heq_copy_counters_from_source
+               GenCtor.heq_move_inits_counters GenCtor.heq_move_counters_from_source a b n cs
+    = c_run_case GenCtor.heq_copy_inits_counters GenCtor.heq_copy_counters_from_source
+                 GenCtor.heq_move_inits_counters GenCtor.heq_move_counters_from_source a' b' n cs.
+Proof. exact (junk_independent _ _). Qed.
 Print Assumptions C10_heter_queue_results_independent_of_prior_memory.
 
 (* a copied or moved-to queue reports empty until something is enqueued into it, and waiting /
-   notification then sees the event *)
+   notification then sees the event — whatever operations are in flight on the source (x ranges
+   over all objects, any counter values) *)
 Theorem C10_constructed_queue_is_fresh :
   forall (a b : Z) (x : cobj),
-    let y := copy_of GenCtor.eq_copy_inits_counters a b x in
-    let z := moved_into GenCtor.eq_move_inits_counters a b x in
+    let y := copy_of GenCtor.eq_copy_inits_counters GenCtor.eq_copy_counters_from_source a b x in
+    let z := moved_into GenCtor.eq_move_inits_counters GenCtor.eq_move_counters_from_source a b x in
     GenQ.empty_queue (is_nil (opending y)) (oecnt y) = true /\
     GenQ.empty_queue (is_nil (opending z)) (oecnt z) = true /\
     (forall e, GenQ.can_process (is_nil (opending y ++ [e])) (oecnt y) (oncnt y) = true) /\
@@ -40,32 +45,43 @@ Theorem C10_constructed_queue_is_fresh :
 Proof. exact constructed_queue_is_fresh. Qed.
 Print Assumptions C10_constructed_queue_is_fresh.
 
+Theorem C10_constructed_heter_queue_is_fresh :
+  forall (a b : Z) (x : cobj),
+    let y := copy_of GenCtor.heq_copy_inits_counters GenCtor.heq_copy_counters_from_source a b x in
+    let z := moved_into GenCtor.heq_move_inits_counters GenCtor.heq_move_counters_from_source a b x in
+    GenQ.empty_queue (is_nil (opending y)) (oecnt y) = true /\
+    GenQ.empty_queue (is_nil (opending z)) (oecnt z) = true /\
+    (forall e, GenQ.can_process (is_nil (opending y ++ [e])) (oecnt y) (oncnt y) = true) /\
+    (forall e, GenQ.can_process (is_nil (opending z ++ [e])) (oecnt z) (oncnt z) = true).
+Proof. exact constructed_queue_is_fresh. Qed.
+Print Assumptions C10_constructed_heter_queue_is_fresh.
+
 (* independence: a command changes only the objects it targets *)
 Theorem C10_commands_touch_only_their_targets :
-  forall ci mi j1 j2 st c st' o',
-    cstep ci mi j1 j2 st c = Some st' -> ~ In o' (targets c) -> getobj st' o' = getobj st o'.
+  forall ci cs mi ms j1 j2 st c st' o',
+    cstep ci cs mi ms j1 j2 st c = Some st' -> ~ In o' (targets c) -> getobj st' o' = getobj st o'.
 Proof. exact frame. Qed.
 Print Assumptions C10_commands_touch_only_their_targets.
 
 Theorem C10_copy_has_same_listeners_and_filters_no_pending :
-  forall ci mi j1 j2 st s d x st',
-    getobj st s = Some x -> cstep ci mi j1 j2 st (CCopyCtor s d) = Some st' ->
+  forall ci cs mi ms j1 j2 st s d x st',
+    getobj st s = Some x -> cstep ci cs mi ms j1 j2 st (CCopyCtor s d) = Some st' ->
     exists y, getobj st' d = Some y /\ olst y = olst x /\ ofilters y = ofilters x /\ opending y = [] /\
               getobj st' s = getobj st s.
 Proof. exact copy_same_content. Qed.
 Print Assumptions C10_copy_has_same_listeners_and_filters_no_pending.
 
 Theorem C10_move_transfers_and_leaves_source_valid :
-  forall ci mi j1 j2 st s d x st',
-    getobj st s = Some x -> cstep ci mi j1 j2 st (CMoveCtor s d) = Some st' ->
+  forall ci cs mi ms j1 j2 st s d x st',
+    getobj st s = Some x -> cstep ci cs mi ms j1 j2 st (CMoveCtor s d) = Some st' ->
     exists y z, getobj st' d = Some y /\ olst y = olst x /\ ofilters y = ofilters x /\ opending y = [] /\
                 getobj st' s = Some z /\ olst z = [] /\ ofilters z = [] /\ opending z = opending x.
 Proof. exact move_transfers. Qed.
 Print Assumptions C10_move_transfers_and_leaves_source_valid.
 
 Theorem C10_swap_exchanges :
-  forall ci mi j1 j2 st a b x y st',
-    a <> b -> getobj st a = Some x -> getobj st b = Some y -> cstep ci mi j1 j2 st (CSwap a b) = Some st' ->
+  forall ci cs mi ms j1 j2 st a b x y st',
+    a <> b -> getobj st a = Some x -> getobj st b = Some y -> cstep ci cs mi ms j1 j2 st (CSwap a b) = Some st' ->
     exists x' y', getobj st' a = Some x' /\ getobj st' b = Some y' /\
                   olst x' = olst y /\ ofilters x' = ofilters y /\ olst y' = olst x /\ ofilters y' = ofilters x /\
                   opending x' = opending x /\ opending y' = opending y.
@@ -73,18 +89,24 @@ Proof. exact swap_exchanges. Qed.
 Print Assumptions C10_swap_exchanges.
 
 Theorem C10_self_swap_and_self_assignment_change_nothing :
-  forall ci mi j1 j2 st a x,
+  forall ci cs mi ms j1 j2 st a x,
     getobj st a = Some x ->
-    (exists st', cstep ci mi j1 j2 st (CSwap a a) = Some st' /\ getobj st' a = Some x /\ ctrace st' = ctrace st) /\
-    (exists st', cstep ci mi j1 j2 st (CCopyAssign a a) = Some st' /\ getobj st' a = Some x /\ ctrace st' = ctrace st) /\
-    cstep ci mi j1 j2 st (CMoveAssign a a) = Some st.
+    (exists st', cstep ci cs mi ms j1 j2 st (CSwap a a) = Some st' /\ getobj st' a = Some x /\ ctrace st' = ctrace st) /\
+    (exists st', cstep ci cs mi ms j1 j2 st (CCopyAssign a a) = Some st' /\ getobj st' a = Some x /\ ctrace st' = ctrace st) /\
+    cstep ci cs mi ms j1 j2 st (CMoveAssign a a) = Some st.
 Proof. exact self_swap_and_self_assign_change_nothing. Qed.
 Print Assumptions C10_self_swap_and_self_assignment_change_nothing.
 
 (* regression witness for the repaired constructors (0cf92d0) *)
 Theorem C10_uninitialised_counters_refuted :
-  exists junk x, GenQ.empty_queue (is_nil (opending (copy_of false junk junk x))) (oecnt (copy_of false junk junk x)) = false.
+  exists junk x, GenQ.empty_queue (is_nil (opending (copy_of false false junk junk x))) (oecnt (copy_of false false junk junk x)) = false.
 Proof. exact uninitialised_counters_refuted. Qed.
+
+(* and for constructors that take the counters over from the source (seeded change C10_copy_copies_guard_counters) *)
+Theorem C10_counters_copied_from_source_refuted :
+  exists x, (forall e, GenQ.can_process (is_nil (opending (copy_of true true 0 0 x) ++ [e])) (oecnt (copy_of true true 0 0 x)) (oncnt (copy_of true true 0 0 x)) = false) /\
+            exists x', GenQ.empty_queue (is_nil (opending (copy_of true true 0 0 x'))) (oecnt (copy_of true true 0 0 x')) = false.
+Proof. exact counters_copied_from_source_refuted. Qed.
 
 (* every callback list obtained by copy / move / assign / swap behaves like a freshly built one
    with those callbacks: whenever the state is related to a specification state, all re-entrant
@@ -99,7 +121,8 @@ Proof. exact cl_run_refines_from. Qed.
 Print Assumptions C10_lists_after_restructuring_obey_nested_rules.
 
 Example C10_example :
-  c_run_case GenCtor.eq_copy_inits_counters GenCtor.eq_move_inits_counters (-1414812757)%Z 5%Z 3
-    [CAppend 0 1 5; CAddFilter 0 9 true; CEnqueue 0 1 7%Z; CCopyCtor 0 1; CEmptyQ 1; CEnqueue 1 1 8%Z; CCanProcess 1; CProcess 1; CAppend 1 1 6; CDispatch 0 1 3%Z]
+  c_run_case GenCtor.eq_copy_inits_counters GenCtor.eq_copy_counters_from_source
+             GenCtor.eq_move_inits_counters GenCtor.eq_move_counters_from_source (-1414812757)%Z 5%Z 3
+    [CAppend 0 1 5; CAddFilter 0 9 true; CEnqueue 0 1 7%Z; CGuardBegin 0 1; CCopyCtor 0 1; CGuardEnd 0 1; CEmptyQ 1; CEnqueue 1 1 8%Z; CCanProcess 1; CProcess 1; CAppend 1 1 6; CDispatch 0 1 3%Z]
   = Some [CRet true; CRet true; CFilter 1 9 8%Z; CCall 1 5 1 8%Z; CRet true; CFilter 0 9 3%Z; CCall 0 5 1 3%Z].
 Proof. vm_compute. reflexivity. Qed.
